@@ -1,38 +1,20 @@
 package main
 
 import (
-	"bytes"
 	"fmt"
 
 	"github.com/flanglet/kanzi-go/v2/verifharness/props"
 )
 
 func main() {
-	data := props.GenData("skewed", 8049, 0)
-	var outs [][]byte
-	for _, j := range []int{1, 2, 3, 4, 1, 3} {
-		cfg := props.Config{Transform: "LZP+RLT", Entropy: "NONE", BlockSize: 3776, Jobs: j, Hint: "larger", HintValue: 8050}
-		s, err := props.PlainCompress(cfg, data)
-		fmt.Println("jobs", j, len(s), err)
-		outs = append(outs, s)
-	}
-	fmt.Println("1 vs 3 equal:", bytes.Equal(outs[0], outs[2]), " 1 vs 1 equal:", bytes.Equal(outs[0], outs[4]), " 3 vs 3:", bytes.Equal(outs[2], outs[5]))
-	for _, t := range []string{"LZP", "RLT", "LZP+RLT"} {
-		var o [][]byte
-		for _, j := range []int{1, 3} {
-			cfg := props.Config{Transform: t, Entropy: "NONE", BlockSize: 3776, Jobs: j, Hint: "larger", HintValue: 8050}
-			s, _ := props.PlainCompress(cfg, data)
-			o = append(o, s)
-		}
-		fmt.Println(t, "jobs1==jobs3:", bytes.Equal(o[0], o[1]), len(o[0]), len(o[1]))
-	}
-	for _, h := range []int64{0, 8049, 8050, 20000} {
-		var o [][]byte
-		for _, j := range []int{1, 3} {
-			cfg := props.Config{Transform: "LZP+RLT", Entropy: "NONE", BlockSize: 3776, Jobs: j, HintValue: h}
-			s, _ := props.PlainCompress(cfg, data)
-			o = append(o, s)
-		}
-		fmt.Println("hint", h, "jobs1==jobs3:", bytes.Equal(o[0], o[1]), len(o[0]), len(o[1]))
+	cfg := props.Config{Transform: "MTFT+TEXT+SRT+SRT+TEXT+BWTS+MM", Entropy: "ANS1", BlockSize: 1360, Jobs: 1, DecJobs: 1}
+	data := props.GenData("mixed", 5403, 2025343369)
+	stream, err := props.RefCompress(cfg, data)
+	fmt.Println("ref compress", len(stream), err)
+	for _, j := range []int{1, 2, 3, 4} {
+		out, err := props.RefDecompress(cfg, stream, j)
+		fmt.Println("ref decoder jobs", j, len(out), err)
+		cfg.DecJobs = j
+		fmt.Println("cur decoder jobs", j, props.PlainDecode(cfg, stream, data))
 	}
 }
